@@ -141,6 +141,14 @@ k("local-renamed", ["C01", "C15", "C06"], T + "aggregate.py", "united_gradient_v
   "aggregated = aggregator(united_jacobian_matrix)\n        gradient_vectors = _AggregateMatrices._disunite(aggregated, jacobian_matrices)")
 k("retain-flag-local", ["C13"], T + "jac.py", "get_vjp_last = partial(_get_vjp, retain_graph=self.retain_graph)", "keep = self.retain_graph\n        get_vjp_last = partial(_get_vjp, retain_graph=keep)")
 k("overlap-check-inline-sets", ["C12", "C02"], J + "mtl_backward.py", "    intersection = task_param_set.intersection(shared_param_set)", "    intersection = task_param_set & shared_param_set")
+k("accumulate-add-method", ["C06", "C20", "C01"], T + "accumulate.py", "                key.grad += gradients[key]\n", "                key.grad.add_(gradients[key])\n")
+k("disunite-torch-split", ["C01", "C15", "C14"], T + "aggregate.py",
+  "        gradient_vectors = {}\n        start = 0\n        for key, jacobian_matrix in jacobian_matrices.items():\n            end = start + jacobian_matrix.shape[1]\n            current_gradient_vector = united_gradient_vector[start:end]\n            gradient_vectors[key] = current_gradient_vector\n            start = end\n",
+  "        widths = [jacobian_matrix.shape[1] for jacobian_matrix in jacobian_matrices.values()]\n        parts = united_gradient_vector.split(widths)\n        gradient_vectors = dict(zip(jacobian_matrices.keys(), parts))\n")
+k("extract-torch-split", ["C01", "C15", "C02"], T + "jac.py", "        jac_matrices = _extract_sub_matrices(jac_matrix, lengths)\n", "        jac_matrices = list(torch.split(jac_matrix, lengths, dim=1))\n")
+k("materialize-grads-flag", ["C01", "C15", "C02"], T + "grad.py",
+  "            allow_unused=True,\n        )\n        grads = _materialize(optional_grads, inputs)\n", "            allow_unused=True,\n            materialize_grads=True,\n        )\n        grads = optional_grads\n")
+k("inputs-ordered-dedup", ["C01", "C06", "C12", "C20"], J + "backward.py", "        inputs = set(inputs)\n", "        inputs = list(dict.fromkeys(inputs))\n")
 k("unparse-roundtrip", ALL, "*", "", "", "ast.unparse of every file: drops comments, moves every line")
 
 # NashMTL reset(): anchored on its docstring
